@@ -653,6 +653,31 @@ example : ∃ s', runText 2 [] initSt = (Outcome.done "ok" "nil" [] (depths init
   obtain ⟨s', h, _⟩ := eval_empty_nil initSt 0 ⟨rfl, rfl, rfl, rfl, rfl, by decide⟩
   exact ⟨s', h, ServedState.text ServedState.init rfl h⟩
 
+theorem okLs_append : ∀ (a b : List Expr), okLs a = true → okLs b = true → okLs (a ++ b) = true
+  | [], _, _, hb => hb
+  | e :: es, b, ha, hb => by
+    simp only [okLs, Bool.and_eq_true] at ha
+    simp only [List.cons_append, okLs, Bool.and_eq_true]
+    exact ⟨ha.1, okLs_append es b ha.2 hb⟩
+
+/-- **one_at_a_time_rest_partial** (the depth half of `OneAtATime`, on the VM model): for an
+interpreter in a `ServedState`, evaluating two texts of the grammar together, or one after the
+other, leaves it at rest — and in a `ServedState` again — in all three evaluations that return
+a value. That the VALUES agree (`OneAtATime`) is not proved: the two runs allocate function ids
+in different orders (templates of the second text before / after the run-time helpers of the
+first), so it needs a simulation up to renaming of function ids. -/
+theorem one_at_a_time_rest_partial (fuel : Nat) (es₁ es₂ : List Expr) (s : St) (hs : ServedState s)
+    (h1 : okLs es₁ = true) (h2 : okLs es₂ = true)
+    {v tr d s' a v₁ tr₁ d₁ s₁ a₁ v₂ tr₂ d₂ s₂ a₂}
+    (hboth : runText fuel (es₁ ++ es₂) s = (Outcome.done "ok" v tr d, s', a))
+    (hfst : runText fuel es₁ s = (Outcome.done "ok" v₁ tr₁ d₁, s₁, a₁))
+    (hsnd : runText fuel es₂ s₁ = (Outcome.done "ok" v₂ tr₂ d₂, s₂, a₂)) :
+    AtRest s' ∧ AtRest s₁ ∧ AtRest s₂ ∧ ServedState s' ∧ ServedState s₂ :=
+  have q1 : ServedState s₁ := ServedState.text hs h1 hfst
+  have q2 : ServedState s₂ := ServedState.text q1 h2 hsnd
+  have q : ServedState s' := ServedState.text hs (okLs_append es₁ es₂ h1 h2) hboth
+  ⟨servedState_at_rest q, servedState_at_rest q1, servedState_at_rest q2, q, q2⟩
+
 /-- **run_at_rest_partial**: `RunAtRest` for the empty text and EVERY state at rest
 (`eval_empty_nil`). For non-empty texts see `run_at_rest_reachable` / `run_at_rest_of_invariant`:
 proved for every state that satisfies the run-time invariant, in particular every state reachable
